@@ -644,6 +644,7 @@ func (c *wsConn) setupPings() func() {
 	}
 
 	c.conn.SetPongHandler(func(appData string) error {
+		vhook("ka.pong", c)
 		select {
 		case c.pongs <- struct{}{}:
 		default:
@@ -651,6 +652,7 @@ func (c *wsConn) setupPings() func() {
 		return nil
 	})
 	c.conn.SetPingHandler(func(appData string) error {
+		vhook("ka.ping", c)
 		// treat pings as pongs - this lets us register server activity even if it's too busy to respond to our pings
 		select {
 		case c.pongs <- struct{}{}:
